@@ -10,6 +10,7 @@ use std::collections::{BTreeMap, BTreeSet};
 use std::time::Instant;
 
 pub mod enumerate;
+pub mod laws;
 
 #[derive(Debug, Clone, Copy, PartialEq, Eq)]
 pub enum Tier {
